@@ -68,7 +68,7 @@ class IsCompletedObserver(FeatureObserver):
             subscribe=subscribe,
         )
 
-    def initialize_features(self):
+    def _get_remaining_ops_observer(self) -> RemainingOperationsObserver:
         def _has_same_features(observer: DispatcherObserver) -> bool:
             if not isinstance(observer, RemainingOperationsObserver):
                 return False
@@ -77,18 +77,21 @@ class IsCompletedObserver(FeatureObserver):
                 for feature_type in remaining_ops_feature_types
             )
 
-        self.set_features_to_zero()
-
         remaining_ops_feature_types = [
             feature_type
             for feature_type in self.features.keys()
             if feature_type != FeatureType.OPERATIONS
         ]
-        remaining_ops_observer = self.dispatcher.create_or_get_observer(
+        return self.dispatcher.create_or_get_observer(
             RemainingOperationsObserver,
             condition=_has_same_features,
             feature_types=remaining_ops_feature_types,
         )
+
+    def initialize_features(self):
+        self.set_features_to_zero()
+
+        remaining_ops_observer = self._get_remaining_ops_observer()
         if FeatureType.JOBS in self.features:
             self.remaining_ops_per_job = remaining_ops_observer.features[
                 FeatureType.JOBS
@@ -99,6 +102,9 @@ class IsCompletedObserver(FeatureObserver):
             ].copy()
 
     def reset(self):
+        # The remaining operations observer may have been subscribed after
+        # this observer. In that case, it has not been reset yet.
+        self._get_remaining_ops_observer().reset()
         self.initialize_features()
 
     def update(self, scheduled_operation: ScheduledOperation):
